@@ -96,33 +96,46 @@ def short(o, n=300):
 
 
 class Bad:
-    """Collector of violations inside a worker (signature -> first)."""
+    """
+    Collector of violations inside a worker (signature -> first).
+
+    ``rank`` is set by the enumerating loop to the position of the current
+    case in the simplest-first order of its part, so that after merging the
+    shards the simplest failing case of each signature is the one reported.
+    """
 
     def __init__(self):
         self.items = {}
+        self.rank = None
 
     def add(self, sig, text, rep):
         if sig not in self.items:
-            self.items[sig] = (text, rep)
+            self.items[sig] = (text, rep, self.rank)
 
     def merge_into(self, other):
         keep_smallest(other, self.items)
 
 
-def case_size(rep):
-    """Size of a failing case: the smallest one is the one reported."""
-    return len(repr(rep))
+def case_order(v):
+    rank = v[2] if len(v) > 2 else None
+    return (rank is None, rank if rank is not None else (), len(repr(v[1])))
 
 
 def keep_smallest(found, items):
     for k, v in items.items():
-        if k not in found or case_size(v[1]) < case_size(found[k][1]):
-            found[k] = v
+        if k in found:
+            try:
+                if not case_order(v) < case_order(found[k]):
+                    continue
+            except TypeError:
+                continue
+        found[k] = v
 
 
 def report_all(ctx: Ctx, found: dict):
     """Re-execute each failing case once, then report it."""
-    for sig, (text, rep) in found.items():
+    for sig, v in found.items():
+        text, rep = v[0], v[1]
         again = run_case(rep)
         if sig not in again:
             raise HarnessError(
@@ -246,6 +259,7 @@ def _small_inst_job(a):
         if idx % nshards != shard:
             continue
         name = NAMES[(idx + W + 3 * H) % len(NAMES)]
+        bad.rank = (sum(r[2] for r in rows), W * H, len(rows), idx)
         t = check_instance(name, W, H, rows, bad, st)
         st["instances"] += 1
         if t is not None:
@@ -304,6 +318,7 @@ def _boundary_job(a):
             st["skipped_cost"] += 1
             continue
         name = NAMES[idx % len(NAMES)]
+        bad.rank = (len(rows), len(str(W * H)), idx, W)
         t = check_instance(name, W, H, rows, bad, st)
         st["instances"] += 1
         if t is not None:
@@ -320,6 +335,7 @@ def _shipped_inst_job(names):
     for nm in names:
         src = Instance.from_resource(nm)
         rows = np.asarray(src).tolist()
+        bad.rank = (src.n_items, src.n_different_items, len(nm))
         t = check_instance(src.name, src.bin_width, src.bin_height, rows,
                            bad, st)
         st["instances"] += 1
@@ -472,6 +488,7 @@ def _packing_job(a):
         rep_inst = {"W": W, "H": H, "rows": rows, "name": "v"}
         what = f"bin={W}x{H} items={rows}"
         for k, s in enumerate(store):
+            bad.rank = (inst.n_items, W * H, idx, k)
             t = check_packing(space, inst, pk, s, bad, "space", what,
                               rep_inst)
             cnt += 1
@@ -540,6 +557,7 @@ def _shipped_packing_job(names):
         pk = Packing(inst)
         seq = inst.get_standard_item_sequence()
         for enc, x in ((1, seq), (2, [-v for v in seq[::-1]])):
+            bad.rank = (inst.n_items, enc)
             mat, nb, _ = C.public_decode(inst, enc, x)
             rep_inst = {"resource": nm, "enc": enc, "x": "std" if enc == 1
                         else "negated-reversed"}
@@ -693,6 +711,7 @@ def _plan_range_job(a):
     tails = 0
     for idx in range(lo, hi):
         y = T.plan_from_index(idx, cfg, days)
+        bad.rank = (n, rounds, idx)
         t, tl = check_plan(space, inst, gp, y, bad,
                            {"n": n, "rounds": rounds})
         texts.add(hash(t))
@@ -751,7 +770,8 @@ def _decoded_job(a):
     bad = Bad()
     texts = set()
     cnt = tails = 0
-    for p in game_permutations(ss.blueprint, complete):
+    for k, p in enumerate(game_permutations(ss.blueprint, complete)):
+        bad.rank = (inst.n_cities, inst.rounds, k)
         x[:] = p
         enc.decode(x, dec)
         t, tl = check_plan(space, inst, gp, np.array(dec, np.int64), bad,
@@ -773,7 +793,8 @@ def _pattern_job(a):
     cnt = tails = 0
     texts = set()
     days = (n - 1) * rounds
-    for kind in ("ramp", "ramp-reversed", -n, -1, 0, 1, n):
+    for k, kind in enumerate(("ramp", "ramp-reversed", -n, -1, 0, 1, n)):
+        bad.rank = (n, rounds, k)
         t, tl = check_plan(space, inst, gp, R.pattern_plan(days, n, kind),
                            bad, {"n": n, "rounds": rounds})
         texts.add(hash(t))
@@ -912,7 +933,8 @@ def _ordering_job(cases):
         perms = R.all_permutations(n) if complete \
             else R.permutation_family(n)
         rep = {"values": list(values), "ntags": ntags}
-        for p in perms:
+        for k, p in enumerate(perms):
+            bad.rank = (n, len(values), ntags, k)
             t, tl = check_ordering(space, p, bad, rep)
             texts.add(hash(t))
             cnt += 1
@@ -1339,7 +1361,8 @@ def _table_job(a):
     cn = new_counters()
     it = itertools.islice(itertools.combinations(range(len(alpha)), size),
                           lo, hi)
-    for combo in it:
+    for k, combo in enumerate(it):
+        bad.rank = (size, list(ALPHABETS).index(alpha_name), lo + k)
         check_table([alpha[i] for i in combo], what, bad, cn)
     return cn, bad.items
 
@@ -1352,6 +1375,7 @@ def _subset_job(a):
     cn = new_counters()
     for mask in range(lo, hi):
         specs = [alpha[i] for i in range(len(alpha)) if mask >> i & 1]
+        bad.rank = (len(specs), len(ALPHABETS), mask)
         check_table(specs, "statistics", bad, cn)
     return cn, bad.items
 
@@ -1635,13 +1659,13 @@ def _check_objects(recs, bad, cn, rep):
     tw = table_world()
     specs = []
     for i, r in enumerate(recs):
-        s = {"object": i, "goal": r.end_result.goal_f, "of": id(recs)}
+        s = {"object": i, "goal": r.end_result.goal_f}
         tw["recs"][spec_key(s)] = r
         specs.append(s)
     inner = Bad()
     check_table(specs, "both", inner, cn)
-    for sig, (text, _) in inner.items.items():
-        bad.add("from_logs->" + sig, text, rep)
+    for sig, v in inner.items.items():
+        bad.add("from_logs->" + sig, v[0], rep)
 
 
 # --------------------------------------------------------------------------
@@ -1791,6 +1815,6 @@ def replay(ctx: Ctx, rep: dict) -> bool:
         found = run_case(rep)
     finally:
         drop_tmp()
-    for sig, (text, _) in found.items():
-        print(f"{sig}: {text}")
+    for sig, v in found.items():
+        print(f"{sig}: {v[0]}")
     return not found
